@@ -98,12 +98,24 @@ def _harden_pool_workers():
 
     def wrap(orig):
         def safe(args):
+            import pickle
             try:
-                return orig(args)
-            except Exception:
+                res = orig(args)
+            except Exception as e:
+                try:
+                    pickle.loads(pickle.dumps(e))
+                except Exception:  # noqa  (an exception of the code under test that cannot be rebuilt on the other side)
+                    raise RuntimeError(f'a worker raised {type(e).__name__}: {e}') from None
                 raise
             except BaseException as e:  # noqa
                 raise RuntimeError(f'a worker raised {type(e).__name__}: {e}') from None
+            try:
+                # an object of the code under test inside a result that cannot be rebuilt by the parent would kill the pool's
+                # result thread and leave `map` waiting for ever
+                pickle.loads(pickle.dumps(res))
+            except Exception as e:  # noqa
+                raise RuntimeError(f'a worker result cannot cross the process boundary: {type(e).__name__}: {e}') from None
+            return res
         safe.__name__ = orig.__name__
         safe.__qualname__ = orig.__qualname__
         safe.__module__ = orig.__module__        # pickled by reference: multiprocessing.pool.mapstar, which is this wrapper now
